@@ -98,9 +98,22 @@ type Policy struct {
 	// pct: D change points over an expected EstSteps yields
 	D        int
 	EstSteps int
-	// explicit: preempt exactly at these global step numbers (sorted), picking Pick[i] (task id, -1 = lowest other)
-	PreemptAt []uint64
-	PickAt    []int
+	// RMWP: extra probability of preempting inside a read-modify-write window (rule R11)
+	RMWP float64 `json:",omitempty"`
+	// explicit: preempt exactly at the listed (action, yield offset within the action) points;
+	// every multi-way task choice consumes the next Pick entry of the current action
+	// (index into the runnable list ordered by task id; exhausted or invalid = 0)
+	Preempt []PPoint `json:",omitempty"`
+	Pick    []PPick  `json:",omitempty"`
+}
+
+type PPoint struct {
+	Act int    `json:"a"`
+	Off uint64 `json:"o"`
+}
+type PPick struct {
+	Act int `json:"a"`
+	Idx int `json:"i"`
 }
 
 type Problem struct {
@@ -129,7 +142,11 @@ type Sim struct {
 	Policy  Policy
 	pctPts  []uint64
 	pctNext int
-	explicitIdx int
+	actStep     uint64
+	preemptSet  map[PPoint]bool
+	pickQ       map[int][]int
+	RecPreempt  []PPoint
+	RecPick     []PPick
 
 	Exited   bool
 	ExitCode int
@@ -141,8 +158,6 @@ type Sim struct {
 	digest   uint64
 	Trace    []string // optional full event log
 	TraceOn  bool
-	Preempts []uint64 // recorded preemption steps (search mode)
-	Picks    []int
 
 	chans map[uintptr]*chanState
 	net   *netState
@@ -186,7 +201,18 @@ func (s *Sim) SetPolicy(p Policy) {
 	s.Policy = p
 	s.pctPts = nil
 	s.pctNext = 0
-	s.explicitIdx = 0
+	s.preemptSet = nil
+	s.pickQ = nil
+	if p.Name == "explicit" {
+		s.preemptSet = map[PPoint]bool{}
+		for _, pp := range p.Preempt {
+			s.preemptSet[pp] = true
+		}
+		s.pickQ = map[int][]int{}
+		for _, pk := range p.Pick {
+			s.pickQ[pk.Act] = append(s.pickQ[pk.Act], pk.Idx)
+		}
+	}
 	if p.Name == "pct" {
 		est := p.EstSteps
 		if est < 100 {
@@ -373,15 +399,26 @@ func Yield(site string) {
 		panic(killSentinel{})
 	}
 	s.Step++
+	s.actStep++
 	s.now += time.Microsecond
 	s.Stats.Yields++
 	s.logEvent("y", t, site)
-	if s.shouldPreempt(t, site) {
-		s.Stats.Preemptions++
-		s.Preempts = append(s.Preempts, s.Step)
-		t.State = Runnable
-		s.park(t)
+	if s.shouldPreempt(t, site, false) {
+		s.preempt(t)
 	}
+}
+
+func (s *Sim) preempt(t *Task) {
+	s.Stats.Preemptions++
+	s.RecPreempt = append(s.RecPreempt, PPoint{s.Action, s.actStep})
+	t.State = Runnable
+	s.park(t)
+}
+
+// SetAction marks the start of driver action i (preemption points are recorded relative to it).
+func (s *Sim) SetAction(i int) {
+	s.Action = i
+	s.actStep = 0
 }
 
 // Access is a yield at a read or write of a field of a shared struct (rule R10/R11).
@@ -394,10 +431,26 @@ func Access(site string, mode byte) {
 	if mode != 'r' {
 		s.Version++
 	}
+	if mode == 'm' && s.Policy.RMWP > 0 && s.Policy.Name != "explicit" {
+		t := s.cur
+		if t.killed || s.Dead {
+			panic(killSentinel{})
+		}
+		s.Step++
+		s.actStep++
+		s.now += time.Microsecond
+		s.Stats.Yields++
+		s.logEvent("y", t, site)
+		if s.sched.Bool(s.Policy.RMWP) || s.shouldPreempt(t, site, false) {
+			s.RMWPreempts++
+			s.preempt(t)
+		}
+		return
+	}
 	Yield(site)
 }
 
-func (s *Sim) shouldPreempt(t *Task, site string) bool {
+func (s *Sim) shouldPreempt(t *Task, site string, _ bool) bool {
 	switch s.Policy.Name {
 	case "random":
 		return s.sched.Bool(s.Policy.P)
@@ -409,13 +462,7 @@ func (s *Sim) shouldPreempt(t *Task, site string) bool {
 		}
 		return false
 	case "explicit":
-		for s.explicitIdx < len(s.Policy.PreemptAt) && s.Policy.PreemptAt[s.explicitIdx] < s.Step {
-			s.explicitIdx++
-		}
-		if s.explicitIdx < len(s.Policy.PreemptAt) && s.Policy.PreemptAt[s.explicitIdx] == s.Step {
-			return true
-		}
-		return false
+		return s.preemptSet[PPoint{s.Action, s.actStep}]
 	}
 	return false
 }
@@ -440,14 +487,12 @@ func Block(site, what string, pred func() bool) {
 		panic(killSentinel{})
 	}
 	s.Step++
+	s.actStep++
 	s.now += time.Microsecond
 	s.logEvent("b", t, site)
 	if pred() {
-		if s.shouldPreempt(t, site) {
-			s.Stats.Preemptions++
-			s.Preempts = append(s.Preempts, s.Step)
-			t.State = Runnable
-			s.park(t)
+		if s.shouldPreempt(t, site, true) {
+			s.preempt(t)
 			// the condition may have been consumed meanwhile
 			for !pred() {
 				t.State = Blocked
@@ -573,14 +618,11 @@ func (s *Sim) pick(rs []*Task) *Task {
 		}
 		return best
 	case "explicit":
-		// at a recorded preemption pick the recorded task, else lowest id
-		if s.explicitIdx < len(s.Policy.PreemptAt) && s.Policy.PreemptAt[s.explicitIdx] == s.Step && s.explicitIdx < len(s.Policy.PickAt) {
-			want := s.Policy.PickAt[s.explicitIdx]
-			s.explicitIdx++
-			for _, t := range rs {
-				if t.ID == want {
-					return t
-				}
+		if q := s.pickQ[s.Action]; len(q) > 0 {
+			idx := q[0]
+			s.pickQ[s.Action] = q[1:]
+			if idx >= 0 && idx < len(rs) {
+				return rs[idx]
 			}
 		}
 		return rs[0]
@@ -608,7 +650,11 @@ func (s *Sim) Run(stop func() bool, advanceTime bool) StopReason {
 		}
 		t := s.pick(rs)
 		if len(rs) > 1 {
-			s.Picks = append(s.Picks, t.ID)
+			for i, x := range rs {
+				if x == t {
+					s.RecPick = append(s.RecPick, PPick{s.Action, i})
+				}
+			}
 			s.Stats.Switches++
 		}
 		t.State = Runnable
